@@ -40,6 +40,7 @@ type c16Case struct {
 	Keep    []string `json:"keep,omitempty"`
 	KeepTag string   `json:"keep_mode,omitempty"`
 	Repair  bool     `json:"repair,omitempty"`
+	Skip    bool     `json:"skip_verify,omitempty"` // the store is opened with SkipVerify
 	N       int      `json:"n,omitempty"`
 	CLI     bool     `json:"cli,omitempty"`
 	Prefix  string   `json:"prefix,omitempty"`
@@ -490,7 +491,7 @@ func c16Verify(a vh.Args, o *vh.Oracle, r *vh.Result, c *c16Case) error {
 	if c.CLI {
 		bin := os.Getenv("VH_DESYNC")
 		cfg := filepath.Join(a.Work, "cfg.json")
-		os.WriteFile(cfg, []byte(fmt.Sprintf(`{"store-options": {%q: {"uncompressed": %v}}}`, dir, c.Unc)), 0644)
+		os.WriteFile(cfg, []byte(fmt.Sprintf(`{"store-options": {%q: {"uncompressed": %v, "skip-verify": %v}}}`, dir, c.Unc, c.Skip)), 0644)
 		args := []string{"--config", cfg, "--digest", "sha256", "verify", "-s", dir, "-n", fmt.Sprint(c.N)}
 		if c.Repair {
 			args = append(args, "-r")
@@ -501,7 +502,7 @@ func c16Verify(a vh.Args, o *vh.Oracle, r *vh.Result, c *c16Case) error {
 			res = "other"
 		}
 	} else {
-		s, err := lsLocalStore(dir, c.Unc, false)
+		s, err := lsLocalStore(dir, c.Unc, c.Skip)
 		if err != nil {
 			return err
 		}
@@ -528,10 +529,12 @@ func c16Verify(a vh.Args, o *vh.Oracle, r *vh.Result, c *c16Case) error {
 	// expectation, computed independently
 	expect := map[string]string{} // id -> path
 	for _, e := range before {
-		if id, ok := canonicalID(e.Path, c.Unc); ok && e.Kind == "f" && !validObject(c.Unc, e.Data, id) {
+		// (a store opened with SkipVerify accepts every object: its Verify has nothing to report)
+		if id, ok := canonicalID(e.Path, c.Unc); ok && e.Kind == "f" && !validObject(c.Unc, e.Data, id) && !c.Skip {
 			expect[id] = e.Path
 		}
 	}
+	r.Dist(fmt.Sprintf("verify-options:unc=%v/skip=%v/cli=%v", c.Unc, c.Skip, c.CLI))
 	// canonical names occupied by a directory, and ids that also occur under a non-canonical accepted
 	// name (upper-case hex, wrong directory): only through such an alias can a directory be "verified",
 	// and only with an alias can a worker delete a file the walk has not reached yet
@@ -620,7 +623,7 @@ func c16Verify(a vh.Args, o *vh.Oracle, r *vh.Result, c *c16Case) error {
 		return nil
 	}
 	cmp := func(mode string) (string, error) {
-		ans, err := o.Call("c16.verify", mode, lsB01(c.Unc), lsB01(c.Repair), lsHx([]byte(dir)), encodeTree("s", before), decompTable(before))
+		ans, err := o.Call("c16.verify", mode, lsB01(c.Unc), lsB01(c.Repair), lsHx([]byte(dir)), encodeTree("s", before), decompTable(before), lsB01(c.Skip))
 		if err != nil {
 			return "", err
 		}
@@ -739,7 +742,7 @@ func runC16(a vh.Args, o *vh.Oracle, r *vh.Result) error {
 		}
 		keep, tag := c16Keep(rng, g.ids)
 		c := &c16Case{Kind: "prune", Unc: rng.Bool(), Tree: g.ents, Keep: keep, KeepTag: tag, Feat: lsFeats(g.feat)}
-		if thorough && os.Getenv("VH_DESYNC") != "" && k%20 == 0 {
+		if os.Getenv("VH_DESYNC") != "" && (k >= 8 && k < 14 || thorough && k%20 == 0) {
 			c.CLI = true
 		}
 		if k < 3 {
@@ -748,9 +751,13 @@ func runC16(a vh.Args, o *vh.Oracle, r *vh.Result) error {
 		if err := c16Prune(a, o, r, c); err != nil {
 			return err
 		}
-		v := &c16Case{Kind: "verify", Unc: rng.Bool(), Tree: g.ents, Repair: rng.Bool(), N: []int{1, 2, 3, 4, 8}[rng.Intn(5)], Feat: lsFeats(g.feat)}
-		if thorough && os.Getenv("VH_DESYNC") != "" && k%20 == 1 {
+		v := &c16Case{Kind: "verify", Unc: rng.Bool(), Tree: g.ents, Repair: rng.Bool(), N: []int{1, 2, 3, 4, 8}[rng.Intn(5)], Feat: lsFeats(g.feat), Skip: rng.Chance(1, 5)}
+		// the CLI (config-file store options) in every tier: all four Uncompressed x SkipVerify combinations first
+		if os.Getenv("VH_DESYNC") != "" && (k < 8 || thorough && k%20 == 1) {
 			v.CLI = true
+			if k < 8 {
+				v.Unc, v.Skip, v.Repair = k%2 == 0, k/2%2 == 1, k/4%2 == 1
+			}
 		}
 		if err := c16Verify(a, o, r, v); err != nil {
 			return err
